@@ -74,8 +74,35 @@ def run(calling, called, own, required, require_called, identity, n_acceptors, n
     return None, log, assoc
 
 
+def check_wire_titles():
+    """native: the REAL A_ASSOCIATE_RQ title setters on 16-byte wire fields - only surrounding spaces may be ignored"""
+    from pynetdicom.pdu import A_ASSOCIATE_RQ
+    for attr in ("calling_ae_title", "called_ae_title"):
+        for field, want in ((b"TRUSTED         ", "TRUSTED"), (b"  TRUSTED       ", "TRUSTED"), (b"TRUSTED" + b"\x00" * 9, None),
+                            (b"\x00TRUSTED        ", None), (b"TRUSTED\t        ", None), (b"TRUSTED\x7f        ", None), (b" " * 16, None),
+                            (b"TRU STED        ", "TRU STED")):
+            pdu = A_ASSOCIATE_RQ()
+            try:
+                setattr(pdu, attr, field)
+                got = getattr(pdu, attr)
+            except ValueError:
+                got = None
+            except Exception as e:
+                return dict(input={"field": attr, "bytes": repr(field)}, observed=repr(e), expected="a title or ValueError")
+            if got != want:
+                return dict(input={"field": attr, "16 bytes on the wire": repr(field)}, observed={"title the policy will compare": got},
+                            expected={"title the policy will compare": want, "note": "None = the PDU is refused (ValueError)"})
+    return None
+
+
 def main():
     rec = load() if len(sys.argv) > 1 and sys.argv[1] != "--all" else {"id": "all"}
+    if "ae_title.fset" in rec.get("id", "") or rec.get("id", "").endswith("cross-check") or rec.get("id") == "all":
+        bad = check_wire_titles()
+        if bad:
+            done(True, **bad)
+        if "ae_title.fset" in rec.get("id", ""):
+            done(False, note="the real title setters ignore surrounding spaces only")
     bad = None
     n = 0
     for calling, required in (("CALLER", []), ("CALLER", ["CALLER"]), ("CALLER", ["  CALLER  ", "X"]), ("CALLER", ["OTHER"]),
